@@ -132,6 +132,10 @@ func runC04(r *Runner, g *Gen, tier string) string {
 		r.Do(codecOp("decdeep", "00", recmap, "", A(hx(append(refTag(1, 3), m...))), A("zero")), true, "dec.nested-counts")
 		// JSON-any arrays: count, then each entry length-prefixed {type = field 2 varint 6 (array)?, value}
 		r.Do(L(A("jhost"), A("arr"), A(hx(jsonNest(depth)))), true, "jhost.nested-counts")
+		// well-formed nests walked with the descriptor into the JSON outputter (its indentation grows with the depth)
+		for _, d2 := range []int{31, 32, 33, 34, 64, 65, depth} {
+			r.Do(L(A("jhostdesc"), A("arr"), A(hx(deepArrayBytes(d2)))), true, "jhostdesc.deep")
+		}
 	}
 	// 2a'. map entries that leave the key or the value out, for key and value types wider than any fixed-size
 	// zero block a map codec might keep (1 KB / 4 KB / 64 KB values; a wide key)
